@@ -5,6 +5,7 @@ from views_common import *
 class C04(ViewsCheck):
     prop = "C04"
     mode = "read"
+    exh_kind = "read"
     gen_cfg = "GenViews_read.cfg"
     types_thorough = ["f64", "f32", "i32", "i64"]
     rule = ("behaviours = `tlc -generate` walks of GenViews (Mode=read): slices of ranks 1-4 in every admissible encoding (dynamic seq, "
